@@ -443,6 +443,26 @@ func main() {
 			if !refgeom.Equal(got, want) {
 				c.Failf("polygon", "%s.Polygon(%v) = %v, want %v", sp.name, poly, got, want)
 			}
+			// several holes, among them ones that collapse and are dropped: every ring is simplified on its own,
+			// wherever it stands in the list (in particular right after a dropped one)
+			{
+				tiny := orb.Ring{{1, 1}, {1.001, 1}, {1.001, 1.001}, {1, 1}}
+				wide := orb.Ring{{0, 3}, {3, 3}, {3, 0}, {0, 3}}
+				pool := []orb.Ring{hole, tiny, wide, tiny}
+				for _, ord := range [][]int{{0, 1, 2}, {1, 0, 2}, {1, 2, 0}, {1, 3, 0}, {0, 1, 3, 2}, {2, 1, 0}} {
+					p3 := orb.Polygon{outer.Clone()}
+					w3 := orb.Polygon{so}
+					for _, k := range ord {
+						p3 = append(p3, pool[k].Clone())
+						if sr := sp.s.Ring(pool[k].Clone()); len(sr) > 2 {
+							w3 = append(w3, sr)
+						}
+					}
+					if g3 := sp.s.Polygon(p3.Clone()); !refgeom.Equal(g3, w3) {
+						c.Failf("polygon", "%s.Polygon(%v) = %v, want every ring simplified on its own: %v", sp.name, p3, g3, w3)
+					}
+				}
+			}
 			other := orb.Polygon{outerCat[0].Clone()}
 			mp := orb.MultiPolygon{poly.Clone(), other}
 			var wm orb.MultiPolygon
